@@ -22,7 +22,12 @@ TRUSTED_BASE = [
 ]
 ASSUMPTIONS = [
     "vocabulary: int/intset/bool variables, integer constants, + - * mod, six comparisons, and/or/not, lin_eq/lin_le/lin_ne, Model::add/sub/mul on variables",
-    "known classes (known_findings.txt): or_not, nested_ne, aux_bounds, mod_rejected, lin_zero_coeffs, modulo_prop, empty_domain_panic",
+    "known classes (known_findings.txt): or_not, nested_ne, mod_rejected (divisor bounds containing 0), lin_zero_coeffs, modulo_prop; "
+    "aux_bounds and empty_domain_panic are repaired (fixed: entries)",
+    "in-range condition of lower_denotes / spellings_agree (doms_nonempty on the lowered store): no auxiliary variable's computed range "
+    "has more than MAX_SPARSE_SET_DOMAIN_SIZE values (the validator answers InvalidDomain; the model represents such a variable by the "
+    "empty domain without materialising it; cases outside it are classed oversize_domain, the open finding filed under C02); the "
+    "generators keep computed ranges below 10^5 values or well above the limit (2*10^6..10^8), and intermediate bounds inside i32",
     "no time or memory limit fires (C15)",
 ]
 RULE = ("lower: case = declarations + postings through the real public API; the normalised dump of Model::verif_lower must equal the "
@@ -31,6 +36,11 @@ RULE = ("lower: case = declarations + postings through the real public API; the 
         "member of that set. mspell: every spelling of one relation gives the same set. Exhaustive over trees of depth <= 2 over two "
         "variables with constants in -2..3 (thorough: all; quick: every tree with one compound side), then seeded random programs "
         "to expression depth 4; non-trivial = the lowered model has a propagator / the solution set is a proper non-empty subset")
+
+# the open class oversize_domain (a computed range wider than MAX_SPARSE_SET_DOMAIN_SIZE is rejected by validation) is filed
+# under C02; the fluent API's auxiliary variables reach it too (outside the in-range condition of lower_denotes)
+KNOWN_PIDS = ["C10", "C02"]
+SHARED_CLASSES = ("oversize_domain",)
 
 OPS = ["add", "sub", "mul", "mod"]
 CMPS = ["eq", "ne", "lt", "le", "gt", "ge"]
@@ -216,6 +226,76 @@ def rand_cons(rng, nv, edepth, cdepth, logic=0.25, **kw):
         return "%s(%s,%s)" % (k, rand_cons(rng, nv, edepth, cdepth - 1, logic, **kw), rand_cons(rng, nv, edepth, cdepth - 1, logic, **kw))
     return "%s(%s,%s)" % (rng.choice(CMPS), rand_expr(rng, nv, rng.randint(0, edepth), **kw), rand_expr(rng, nv, rng.randint(0, edepth), **kw))
 
+# ---- computed ranges of the auxiliary variables (interval arithmetic of runtime_api::expr_bounds on the declared
+# domains), used only to steer the generator: the extracted model keeps domains as lists of inductive integers, so
+# a materialised auxiliary domain must stay small (< AUX_SMALL values); far above the size limit the model does not
+# materialise it (Model/Lower.v aux_dom) and the case exercises the InvalidDomain path (not too far above: the
+# implementation allocates the whole range before the validator rejects it); bounds stay inside i32
+AUX_SMALL = 10 ** 5
+AUX_HUGE = (2 * 10 ** 6, 10 ** 8)
+I32_LIM = 2 ** 31 - 2
+
+def _split_top(s):
+    out, depth, start = [], 0, 0
+    for i, ch in enumerate(s):
+        if ch == "(": depth += 1
+        elif ch == ")": depth -= 1
+        elif ch == "," and depth == 0:
+            out.append(s[start:i]); start = i + 1
+    out.append(s[start:])
+    return out
+
+def _ival(s, env, widths):
+    """interval of the expression text s over env = [(lo, hi)] per variable; appends (lo, hi) of every compound node"""
+    s = s.strip()
+    if s.startswith("x") and s[1:].isdigit():
+        i = int(s[1:]); return env[i] if i < len(env) else (0, 0)
+    if "(" not in s: return (int(s), int(s))
+    h = s[:s.index("(")]
+    a, b = _split_top(s[s.index("(") + 1:-1])
+    (ll, lh), (rl, rh) = _ival(a, env, widths), _ival(b, env, widths)
+    if h == "add": r = (ll + rl, lh + rh)
+    elif h == "sub": r = (ll - rh, lh - rl)
+    elif h == "mul":
+        ps = [ll * rl, ll * rh, lh * rl, lh * rh]; r = (min(ps), max(ps))
+    else:
+        m = max(max(abs(rl), abs(rh)) - 1, 0)
+        r = (0 if ll >= 0 else max(ll, -m), 0 if lh <= 0 else min(lh, m))
+    widths.append(r)
+    return r
+
+def _cons_ranges(s, env, widths):
+    s = s.strip()
+    h = s[:s.index("(")]
+    args = _split_top(s[s.index("(") + 1:-1])
+    if h in ("and", "or", "not"):
+        for a in args: _cons_ranges(a, env, widths)
+    else:
+        for a in args: _ival(a, env, widths)
+
+def dom_bounds(d):
+    if d == "b": return (0, 1)
+    if ".." in d:
+        a, b = d.split(".."); return (int(a), int(b))
+    vs = [int(x) for x in d.split(",")]
+    return (min(vs), max(vs))
+
+def aux_ok(env, cons_text):
+    """every computed range of the tree is small or far above the size limit, and inside i32"""
+    ws = []
+    _cons_ranges(cons_text, env, ws)
+    for lo, hi in ws:
+        if abs(lo) > I32_LIM or abs(hi) > I32_LIM: return False
+        w = hi - lo + 1
+        if w > AUX_SMALL and not (AUX_HUGE[0] < w <= AUX_HUGE[1]): return False
+    return True
+
+def api_bounds(f, a, b):
+    if f == "add": return (a[0] + b[0], a[1] + b[1])
+    if f == "sub": return (a[0] - b[1], a[1] - b[0])
+    ps = [a[0] * b[0], a[0] * b[1], a[1] * b[0], a[1] * b[1]]
+    return (min(ps), max(ps))
+
 def rand_program(rng, edepth=4, api=True, logic=0.25, maxprod=3000, **kw):
     while True:
         nv = rng.randint(1, 3)
@@ -225,9 +305,12 @@ def rand_program(rng, edepth=4, api=True, logic=0.25, maxprod=3000, **kw):
         if prod <= maxprod: break
     posts = []
     n = nv
+    env = [dom_bounds(d) for d in doms]
     if api and rng.random() < 0.2:
         for _ in range(rng.randint(1, 2)):
-            posts.append("api %s x%d x%d" % (rng.choice(["add", "sub", "mul"]), rng.randrange(n), rng.randrange(n)))
+            f, x, y = rng.choice(["add", "sub", "mul"]), rng.randrange(n), rng.randrange(n)
+            posts.append("api %s x%d x%d" % (f, x, y))
+            env.append(api_bounds(f, env[x], env[y]))
             n += 1
     for _ in range(rng.randint(1, 3)):
         r = rng.random()
@@ -236,7 +319,10 @@ def rand_program(rng, edepth=4, api=True, logic=0.25, maxprod=3000, **kw):
             posts.append("lin %s %s %s %d" % (rng.choice(["eq", "le", "ne"]), ",".join(str(rng.choice([-3, -2, -1, 0, 1, 2, 3])) for _ in range(m)),
                                              ",".join("x%d" % rng.randrange(n) for _ in range(m)), rng.randint(-6, 8)))
         else:
-            posts.append("new " + rand_cons(rng, n, edepth, 2, logic, **kw))
+            for attempt in range(50):
+                c = rand_cons(rng, n, edepth, 2, logic, **kw) if attempt < 49 else "le(x0,1)"
+                if aux_ok(env, c): break
+            posts.append("new " + c)
     return " ; ".join(["|".join(doms)] + posts)
 
 def gen_lower_random(tier, rng):
